@@ -212,6 +212,10 @@ def check_c11(tier):
     # a narrow label dtype: node ids that the array cannot hold are refused while the mask is painted
     stages.append(dict(name="uint8-labels", worlds=["seg-2d-u8"], seeds=["div", "skip", "two", "u8ids"], depth=1 if q else 2,
                        kinds=("add_node", "paint", "add_edge", "del_node"), max_states=None if q else 3000))
+    # an object imported from a node table + label image (relabelled on import; nodes keep the
+    # unregistered attribute seg_id)
+    stages.append(dict(name="imported-with-seg-id", worlds=["seg-2d-csvseg"], seeds=["div", "twodiv", "skip"], depth=1 if q else 2,
+                       kinds=("add_node", "paint", "add_edge", "del_node", "swap"), max_states=None if q else 3000))
     return run_e1("C11", tier, stages, dict(undo_probe=False), time_budget=budget(tier, 300, 1500))
 
 
